@@ -26,7 +26,8 @@ class Ctx:
     def __init__(self):
         self.reset()
 
-    def reset(self, ex=None, float_mode='regular', precision=None):
+    def reset(self, ex=None, float_mode='regular', precision=None, exact=False):
+        self.exact = exact            # concrete float arithmetic is carried out exactly (Fractions) instead of in floating point
         self.ex = ex                  # symx.Executor or None
         self.float_mode = float_mode  # 'regular': record side conditions; 'fork': branch on zero denominators / negative radicands
         self.precision = precision    # numpy dtype: operations in a narrower float type get rounding marks
@@ -187,6 +188,8 @@ def to_int(e, src, dst):
         return z3.If(e, z3.BitVecVal(1, w), z3.BitVecVal(0, w))
     if e.is_int():
         return e
+    if src is not None and src.kind in 'iub':
+        return e          # a real-sorted term held in an integer-dtype array is an integer-valued symbol: no truncation
     return trunc_int(e)
 
 
@@ -371,7 +374,8 @@ def r_div(x, y):
                 return (rnp.float64(x) / rnp.float64(y)).item()
         if isinstance(x, float) or isinstance(y, float):
             return x / y
-        return Fraction(x) / Fraction(y)
+        q = Fraction(x) / Fraction(y)
+        return int(q) if q.denominator == 1 else q
     if is_special(y):
         if y != y or is_special(x):
             return math.nan if (y != y or x != x or is_special(x)) else 0.0
@@ -383,6 +387,8 @@ def r_div(x, y):
             return x if x != x else x * ((y > 0) - (y < 0))
         return R(x) / R(y)
     # symbolic denominator
+    if is_special(x) and x != x:
+        return x                      # NaN / anything = NaN: no condition on the denominator is needed
     if identically_zero(y):
         return _div_by_zero(x)
     if CTX.float_mode == 'fork':
@@ -538,6 +544,9 @@ def i_op(op, x, y, ld):
     if int_mode:
         a = _as_int_term(x, signed) if xs else z3.IntVal(int(x))
         b = _as_int_term(y, signed) if ys else z3.IntVal(int(y))
+        if (z3.is_arith(a) and a.is_real()) or (z3.is_arith(b) and b.is_real()):
+            a = z3.ToReal(a) if a.is_int() else a
+            b = z3.ToReal(b) if b.is_int() else b
         if op == 'add':
             return a + b
         if op == 'sub':
@@ -683,6 +692,11 @@ def elem_binop(op, x, y, ld):
     if k == 'c' or isinstance(x, Cx) or isinstance(y, Cx):
         return c_op(op, x, y)
     if k == 'f':
+        if CTX.exact:
+            if isinstance(x, float) and x == x and x not in (math.inf, -math.inf):
+                x = Fraction(x)
+            if isinstance(y, float) and y == y and y not in (math.inf, -math.inf):
+                y = Fraction(y)
         if op == 'add':
             return mark_op(r_add(x, y), ld)
         if op == 'sub':
